@@ -509,7 +509,7 @@ def _check_face0(chain, is_right, swap, reverse, vector, t, e_orth, e_tang, e_ta
     return pr
 
 
-def _check_prepad_and_trim(ctx, P, fi, rule="R05.4"):
+def _check_prepad_and_trim(ctx, P, fi, rule="R05.4", with_vector=True):
     """R05.4 with concrete requested widths: pre-pad = max width on every axis; trim leaves exactly the request."""
     cases = [
         {AX: (1, 2)},
@@ -517,11 +517,13 @@ def _check_prepad_and_trim(ctx, P, fi, rule="R05.4"):
         {AY: (1, 1)},
         {AX: (3, 0), AY: (0, 0)},
     ]
-    for widths in cases:
-        inst = f"requested widths {{{', '.join(f'{k.name}: {v}' for k, v in widths.items())}}}"
-        table = table_for(True, False, False)
+    # the last case is a vector component across a swapped-axis link: its partner is pre-padded as well, and the partner's
+    # pre-padded cells are what ends up in the corners of the halo
+    for widths, vec in [(w_, None) for w_ in cases] + ([({AX: (1, 2)}, "parallel")] if with_vector else []):
+        inst = f"requested widths {{{', '.join(f'{k.name}: {v}' for k, v in widths.items())}}}" + (", vector component and its partner" if vec else "")
+        table = table_for(True, True, False) if vec else table_for(True, False, False)
         try:
-            outs = run(P, table, widths=widths)
+            outs = run(P, table, widths=widths, vector=vec) if vec else run(P, table, widths=widths)
         except Unmodelled as e:
             ctx.unknown(rule, inst, str(e))
             continue
@@ -535,17 +537,23 @@ def _check_prepad_and_trim(ctx, P, fi, rule="R05.4"):
             if not pb:
                 bad = "no basic pre-padding"
                 continue
-            b = pb[0][1]
-            pw = b["padding_width"]
-            want_axes = {AX} | set(widths)  # axes named in the table + requested axes
-            if set(pw) != want_axes or any(tuple(v) != (wmax, wmax) for v in pw.values()):
-                bad = f"pre-padding widths {pw!r}; every connection axis and requested axis must be pre-padded by the maximum requested width ({wmax}, {wmax})"
             from ..facepad import FILLS_IN_FORCE, RULES_IN_FORCE
 
-            fills_ok = b["fill_value"] == FILLS_IN_FORCE or (b.get("__fill_only_where_constant__") and isinstance(b["fill_value"], dict)
-                                                             and all(v == FILLS_IN_FORCE[k] for k, v in b["fill_value"].items() if RULES_IN_FORCE.get(k) == "fill"))
-            if b["padding"] != RULES_IN_FORCE or not fills_ok:
-                bad = bad or "the basic pre-padding does not use the per-axis rule and fill value in force"
+            want_axes = ({AX, AY} if vec else {AX}) | set(widths)  # axes named in the table + requested axes
+            padded_names = set()
+            for ev_ in pb:  # the array itself and, for a vector component, its partner
+                b = ev_[1]
+                who = getattr(b.get("da"), "name", "?")
+                padded_names.add(who)
+                pw = b["padding_width"]
+                if set(pw) != want_axes or any(tuple(v) != (wmax, wmax) for v in pw.values()):
+                    bad = bad or f"pre-padding widths {pw!r} ({who}); every connection axis and requested axis must be pre-padded by the maximum requested width ({wmax}, {wmax})"
+                fills_ok = b["fill_value"] == FILLS_IN_FORCE or (b.get("__fill_only_where_constant__") and isinstance(b["fill_value"], dict)
+                                                                 and all(v == FILLS_IN_FORCE[k] for k, v in b["fill_value"].items() if RULES_IN_FORCE.get(k) == "fill"))
+                if b["padding"] != RULES_IN_FORCE or not fills_ok:
+                    bad = bad or f"the basic pre-padding of {who} does not use the per-axis rule and fill value in force"
+            if vec and not {"MAIN", "PARTNER"} <= padded_names:
+                bad = bad or f"only {sorted(padded_names)} are pre-padded; the partner component supplies the halo across a swapped-axis link and needs the same pre-padding"
             faces, facedim, trim = face_parts(o.value)
             extra, unknown_ops = foreign_ops([e for e in trim if e[0] != "isel"])
             if unknown_ops:
